@@ -13,8 +13,8 @@ import (
 	"runtime/debug"
 	"sort"
 
-	"cosmossdk.io/x/tx/signing"
 	storetypes "cosmossdk.io/store/types"
+	"cosmossdk.io/x/tx/signing"
 
 	"github.com/cosmos/cosmos-sdk/baseapp"
 	"github.com/cosmos/cosmos-sdk/client"
